@@ -87,4 +87,10 @@ TEXT = {
         design_ref='DESIGN.md §5 C04, §6',
         note="partial: parity-scale-codec's Encode impls are modelled (Spec.ValOf / Value.encode), tied only by the differential runs; the glue 'registry produced by Registry from Impls.typeInfo is Faithful' is C02's theorem plus the TyExpr->Nat encoding done by the driver (compared with the real registry on every case). KNOWN-FINDING: arrays of length >= 2^32 (format limit).",
     ),
+    'C09': dict(
+        technique='Lean 4 proof that the macro logic (emitted builder calls run through the builder and path models) equals the declarative description of the declaration, and that the re-extracted clean_type_string chain only touches spaces (translator + decide) + generated declarations compiled against /repo with docs off and on',
+        level="Proof: SIM.C09.derive_mirrors (for EVERY declaration of the modelled AST and both settings of the docs feature: path = module path + ident with replace_segment applied, parameters by name in order with none when skipped, non-skipped non-PhantomData members in order with (renamed) identifier, declared type or its compact form, type name, variants with identifiers and indices, docs), replaceAll_spaces / clean_spaces (generic in the pair list) + extracted_pairs_ok (decide over the pairs re-extracted from /repo on this run) => type_name_up_to_spaces, docs_captured_iff, strip_one_space, members_order, params_order, variant_index_after_filter, derive_never_lists_phantom. Tie: generated programs compiled against /repo; the real type_info() of every instantiation is compared with the declarative spec (SPECFAIL) and the macro model (DIFF).",
+        design_ref='DESIGN.md §5 C09',
+        note="partial: the quantifier over 'all type definitions in the supported grammar' is proved over the model's Decl AST; that rustc + the macro implement that logic for real source text is sampled by compilation (generator grammar in the evidence). Type names are compared modulo whitespace (the token printer wraps long types over lines).",
+    ),
 }
